@@ -1,9 +1,176 @@
-//! Concrete evaluation of the real functions, used to validate the MIR->SMT translator
-//! (the interpreter's concrete result must equal the native result on every probe).
+//! Concrete evaluation of the real functions on given inputs. Used (a) to validate the
+//! MIR->SMT translator differentially on every run and (b) to replay mirsym counterexamples
+//! against the natively compiled code before anything is reported.
+//! Output format: whitespace-separated integers / keywords, or `PANIC`.
 #![cfg(verif_replay)]
-use crate::{Duration, Unit};
+use crate::{Duration, Epoch, TimeScale, TimeSeries, Unit};
+use std::panic::{catch_unwind, AssertUnwindSafe};
+
+fn p<T: core::str::FromStr>(s: &str) -> T
+where
+    T::Err: core::fmt::Debug,
+{
+    s.parse::<T>().unwrap()
+}
+
+fn dur(a: &[String], i: usize) -> Duration {
+    Duration {
+        centuries: p(&a[i]),
+        nanoseconds: p(&a[i + 1]),
+    }
+}
+
+fn unit(s: &str) -> Unit {
+    match p::<u8>(s) {
+        0 => Unit::Nanosecond,
+        1 => Unit::Microsecond,
+        2 => Unit::Millisecond,
+        3 => Unit::Second,
+        4 => Unit::Minute,
+        5 => Unit::Hour,
+        6 => Unit::Day,
+        7 => Unit::Week,
+        _ => Unit::Century,
+    }
+}
+
+pub fn scale(s: &str) -> TimeScale {
+    match p::<u8>(s) {
+        0 => TimeScale::TAI,
+        1 => TimeScale::TT,
+        2 => TimeScale::ET,
+        3 => TimeScale::TDB,
+        4 => TimeScale::UTC,
+        5 => TimeScale::GPST,
+        6 => TimeScale::GST,
+        7 => TimeScale::BDT,
+        _ => TimeScale::QZSST,
+    }
+}
+
+pub fn scale_idx(t: TimeScale) -> u8 {
+    match t {
+        TimeScale::TAI => 0,
+        TimeScale::TT => 1,
+        TimeScale::ET => 2,
+        TimeScale::TDB => 3,
+        TimeScale::UTC => 4,
+        TimeScale::GPST => 5,
+        TimeScale::GST => 6,
+        TimeScale::BDT => 7,
+        TimeScale::QZSST => 8,
+    }
+}
+
+fn d(x: Duration) -> String {
+    format!("{} {}", x.centuries, x.nanoseconds)
+}
+
+fn e(x: Epoch) -> String {
+    format!("{} {} {}", x.duration.centuries, x.duration.nanoseconds, scale_idx(x.time_scale))
+}
+
+fn ord(o: core::cmp::Ordering) -> String {
+    format!("{}", o as i8)
+}
+
+fn inner(name: &str, a: &[String]) -> String {
+    match name {
+        "from_parts" => d(Duration::from_parts(p(&a[0]), p(&a[1]))),
+        "from_total_nanoseconds" => d(Duration::from_total_nanoseconds(p(&a[0]))),
+        "total_nanoseconds" => format!("{}", dur(a, 0).total_nanoseconds()),
+        "from_truncated_nanoseconds" => d(Duration::from_truncated_nanoseconds(p(&a[0]))),
+        "try_truncated_nanoseconds" => match dur(a, 0).try_truncated_nanoseconds() {
+            Ok(v) => format!("Ok {v}"),
+            Err(_) => "Err".to_string(),
+        },
+        "truncated_nanoseconds" => format!("{}", dur(a, 0).truncated_nanoseconds()),
+        "unit_mul_i64" => d(unit(&a[0]) * p::<i64>(&a[1])),
+        "i64_mul_unit" => d(p::<i64>(&a[0]) * unit(&a[1])),
+        "add" => d(dur(a, 0) + dur(a, 2)),
+        "sub" => d(dur(a, 0) - dur(a, 2)),
+        "neg" => d(-dur(a, 0)),
+        "abs" => d(dur(a, 0).abs()),
+        "mul_i64" => d(dur(a, 0) * p::<i64>(&a[2])),
+        "i64_mul_dur" => d(p::<i64>(&a[0]) * dur(a, 1)),
+        "div_i64" => d(dur(a, 0) / p::<i64>(&a[2])),
+        "add_assign" => {
+            let mut x = dur(a, 0);
+            x += dur(a, 2);
+            d(x)
+        }
+        "sub_assign" => {
+            let mut x = dur(a, 0);
+            x -= dur(a, 2);
+            d(x)
+        }
+        "add_unit" => d(dur(a, 0) + unit(&a[2])),
+        "sub_unit" => d(dur(a, 0) - unit(&a[2])),
+        "add_assign_unit" => {
+            let mut x = dur(a, 0);
+            x += unit(&a[2]);
+            d(x)
+        }
+        "sub_assign_unit" => {
+            let mut x = dur(a, 0);
+            x -= unit(&a[2]);
+            d(x)
+        }
+        "eq" => format!("{}", dur(a, 0) == dur(a, 2)),
+        "cmp" => ord(dur(a, 0).cmp(&dur(a, 2))),
+        "partial_cmp" => match dur(a, 0).partial_cmp(&dur(a, 2)) {
+            Some(o) => format!("Some {}", ord(o)),
+            None => "None".to_string(),
+        },
+        "floor" => d(dur(a, 0).floor(dur(a, 2))),
+        "ceil" => d(dur(a, 0).ceil(dur(a, 2))),
+        "round" => d(dur(a, 0).round(dur(a, 2))),
+        "signum" => format!("{}", dur(a, 0).signum()),
+        "from_time_of_week" => e(Epoch::from_time_of_week(p(&a[0]), p(&a[1]), scale(&a[2]))),
+        "to_time_of_week" => {
+            let (w, n) = Epoch::from_duration(dur(a, 0), scale(&a[2])).to_time_of_week();
+            format!("{w} {n}")
+        }
+        "epoch_add" => e(Epoch::from_duration(dur(a, 0), scale(&a[2])) + dur(a, 3)),
+        "epoch_sub" => e(Epoch::from_duration(dur(a, 0), scale(&a[2])) - dur(a, 3)),
+        "to_time_scale" => e(Epoch::from_duration(dur(a, 0), scale(&a[2])).to_time_scale(scale(&a[3]))),
+        "epoch_diff" => d(Epoch::from_duration(dur(a, 0), scale(&a[2])) - Epoch::from_duration(dur(a, 3), scale(&a[5]))),
+        "ts_next" => {
+            // start(c n ts) duration(c n) step(c n) cur incl
+            let mut ts = TimeSeries::verif_from_raw(
+                Epoch::from_duration(dur(a, 0), scale(&a[2])),
+                dur(a, 3),
+                dur(a, 5),
+                p(&a[7]),
+                p::<u8>(&a[8]) != 0,
+            );
+            let r = ts.next();
+            let cur = ts.verif_parts().3;
+            match r {
+                Some(x) => format!("Some {} cur {}", e(x), cur),
+                None => format!("None cur {}", cur),
+            }
+        }
+        "ts_new" => {
+            // start(c n ts) end(c n ts) step(c n) incl
+            let s = Epoch::from_duration(dur(a, 0), scale(&a[2]));
+            let en = Epoch::from_duration(dur(a, 3), scale(&a[5]));
+            let st = dur(a, 6);
+            let ts = if p::<u8>(&a[8]) != 0 {
+                TimeSeries::inclusive(s, en, st)
+            } else {
+                TimeSeries::exclusive(s, en, st)
+            };
+            { let (s0, du, stp, cur, incl) = ts.verif_parts(); format!("{} {} {} cur {} incl {}", e(s0), d(du), d(stp), cur, incl as u8) }
+        }
+        _ => "unsupported".to_string(),
+    }
+}
 
 pub fn eval(name: &str, args: &[String]) -> String {
-    let _ = (name, args);
-    "unsupported".to_string()
+    match catch_unwind(AssertUnwindSafe(|| inner(name, args))) {
+        Ok(s) => s,
+        Err(_) => "PANIC".to_string(),
+    }
 }
+
